@@ -56,8 +56,8 @@ man = {
          "kind_free_text": "Hypothesis 6.168 strategies over an abstract molecule model, own molfile renderers, own EBNF interpreter, own isomorphism code; 16 sharded processes; budgeted shrinking; optional Atheris campaigns over the same properties"},
         {"name": "atheris-campaign", "path": "/verif/vlib/fuzz.py", "serves_properties": ["C05", "C07", "C08", "C09", "C10", "C11"],
          "kind_free_text": "thorough tier only: Atheris 3.1 / libFuzzer, tucan instrumented, target = the same Hypothesis property via fuzz_one_input (oracle inside the target); skipped with a note if atheris is not installed"},
-        {"name": "finite-enumeration", "path": "/verif/vlib/iso.py", "serves_properties": ["C02", "C10"],
-         "kind_free_text": "complete enumeration of small finite sub-domains: all coloured graphs up to isomorphism with n<=6 (C02), complete single-token edit neighbourhoods of drawn sentences (C10)"},
+        {"name": "finite-enumeration", "path": "/verif/vlib/iso.py", "serves_properties": ["C01", "C02", "C03", "C04", "C10", "C13"],
+         "kind_free_text": "complete enumeration of small finite sub-domains: all coloured graphs up to isomorphism with n<=4..6 (C01 under all n! relabelings, C02 injectivity, C03 round trip, C13 partition oracles), all 117 neighbouring element pairs (C01, C04), complete single-token edit neighbourhoods of drawn sentences (C10)"},
     ],
     "checks": checks,
     "notes": "Genuine defects repaired by fix: commits are listed in known_findings.txt. ./check <ID> --tier quick|thorough; replay with --replay <file>.",
